@@ -1,11 +1,11 @@
 SPECIFICATION Spec
 CONSTANTS
-  Addr <- AddrRestart
-  Gaps <- GapsRestart
+  Addr <- Addr1
+  Gaps <- GapsJitter1
   T = 10
   D = 1
-  MaxEvents = 4
-  MaxFails = 0
+  MaxEvents = 2
+  MaxFails = 3
   Backoff = FALSE
   Closed = TRUE
   ObserveCb = TRUE
